@@ -3,7 +3,7 @@
    The theorems speak about the SeaORM *declarations* [members] (tied to the real exporter by K-exp on every
    run).  The Python half of the property ("syntactically valid, imports cover every name") is decided by the
    ast-based oracle only: C17 is partial there. *)
-From VV.EXP Require Import Imports Names ImportsP NamesP UniqueP.
+From VV.EXP Require Import Imports Names PyClass ImportsP NamesP UniqueP PyClassP.
 
 Theorem C17_unique_name_fresh : forall base used n, unique_name base used = Some n -> mem_str n used = false.
 Proof. exact unique_name_fresh. Qed.
@@ -89,6 +89,21 @@ Proof. exact sqlmodel_sa_line_text. Qed.
 Print Assumptions C17_sqlmodel_sa_line_text.
 Check C17_sqlmodel_sa_line_text : forall t,
   sqlmodel_needs_text t = true <-> exists l, sqlmodel_sa_line t = [l] /\ ends_with "text" l = true.
+
+(* Python ORMs: the annotation of a column is Optional[...] iff the column is nullable, whatever its default or key
+   status (K-exp sub-checks 7 / 8 compare the annotation text of every SQLModel / SQLAlchemy field with
+   [py_annotation]; the other mirror clauses — keys, foreign keys, unique, index, defaults — are tested by the
+   ast-based oracle only) *)
+Theorem C17_sqlmodel_optional_iff_nullable : forall c,
+  (py_field_optional c = true <-> c_nullable c = true)
+  /\ (c_nullable c = true -> starts_with "Optional[" (py_annotation c) = true)
+  /\ (is_enum_type (c_type c) = false -> c_nullable c = false -> starts_with "Optional[" (py_annotation c) = false).
+Proof. exact sqlmodel_optional_iff_nullable. Qed.
+Print Assumptions C17_sqlmodel_optional_iff_nullable.
+Check C17_sqlmodel_optional_iff_nullable : forall c,
+  (py_field_optional c = true <-> c_nullable c = true)
+  /\ (c_nullable c = true -> starts_with "Optional[" (py_annotation c) = true)
+  /\ (is_enum_type (c_type c) = false -> c_nullable c = false -> starts_with "Optional[" (py_annotation c) = false).
 
 (* the full-strength statement for the SeaORM declarations (a definition, not a claim): FALSE, see D14 *)
 Definition C17_full_statement : Prop :=
